@@ -187,18 +187,30 @@ def gen_cases(ctx):
     return cases
 
 
-def write_tool_cases(ctx, values):
-    """octave_write(changes={key: v}) followed by a strict read of the file."""
+ABSENT = "__key_absent__"
+
+
+def write_tool_cases(ctx, values, priors=(ABSENT,)):
+    """octave_write(changes={key: v}) followed by a strict read of the file.  `priors`: JSON-form values the key K already holds in
+    the file before the call (ABSENT = K does not exist yet)."""
+    from octave_mcp.core.emitter import emit
     from octave_mcp.core.parser import parse
     from octave_mcp.mcp.write import WriteTool
     fails = []
     with tempfile.TemporaryDirectory() as td:
-        for idx, vj in enumerate(values):
+        for idx, (prior, vj) in enumerate([(pr, x) for x in values for pr in priors]):
             v = T.json_to_value(vj)
             p = os.path.join(td, f"f{idx}.oct.md")
             with open(p, "w", encoding="utf-8", newline="") as fh:
-                fh.write("===D===\nA::1\n===END===\n")
+                if isinstance(prior, str) and prior == ABSENT:
+                    fh.write("===D===\nA::1\n===END===\n")
+                else:
+                    d0 = mk_doc("assign", "K", prior)
+                    d0["sections"].insert(0, {"a": {"k": "A", "v": {"i": "1"}, "ln": 0, "col": 0, "lead": [], "trail": None}})
+                    fh.write(emit(T.json_to_doc(d0)))
             case = {"value": vj, "pos": "octave_write.changes", "key": "K"}
+            if not (isinstance(prior, str) and prior == ABSENT):
+                case["prior_value_of_K"] = prior
             try:
                 res = asyncio.run(WriteTool().execute(target_path=p, changes={"K": v}))
                 if res.get("status") != "success":
@@ -274,7 +286,11 @@ def run(ctx: vlib.Ctx):
     # tool path
     vals = [c[0] for c in cases if c[1] == "assign" and c[2] == "K"]
     sample = ctx.rng.sample(vals, min(len(vals), ctx.budget(300, 6000)))
-    for case, why in write_tool_cases(ctx, sample):
+    # values of different types that compare equal in Python (1 == 1.0 == True, 0 == 0.0 == False, "" / None / 0 falsy …): each is
+    # placed over every other one, so "unchanged" shortcuts that compare with == / truthiness show up as a lost type
+    confusable = [True, False, None, {"i": "1"}, {"i": "0"}, {"f": "1.0"}, {"f": "0.0"}, {"f": "-0.0"}, {"s": "1"}, {"s": "true"}, {"s": ""}, {"s": "1.0"},
+                  {"s": "null"}, {"i": "2"}, {"f": "2.0"}]
+    for case, why in list(write_tool_cases(ctx, sample)) + list(write_tool_cases(ctx, confusable, priors=confusable)):
         hit = [f for f in findings if CLASSES[f["cls"]](case)]
         if hit:
             ctx.known_hits[hit[0]["id"]] = ctx.known_hits.get(hit[0]["id"], 0) + 1
